@@ -775,6 +775,28 @@ func c18Run(c *core.Ctx) {
 				msg(c18Msg{Kind: "list", Subs: []uSub{{208, 93, []uIns{{Upsc: 9, Parts: []uPart{{2, 3}, {1, l}}}, {Upsc: 10, Parts: []uPart{{1, l}}}}}}, Classmark: -1})
 			}
 		}
+		// alignment: a part followed by further parts, its content length through every value from 40 below to 8 above
+		// 4096 and 8192 (thorough: 512 .. 32 768) — the next part's header then falls on every offset around the sizes a
+		// buffered reader works in, whichever nesting level the reader belongs to
+		{
+			targets := []int{4096, 8192}
+			if thorough {
+				targets = []int{512, 1024, 2048, 4096, 8192, 16384, 32768}
+			}
+			ai := 0
+			for _, T := range targets {
+				for a := T - 40; a <= T+8; a++ {
+					ai++
+					if !c.Mine(ai + 3) {
+						continue
+					}
+					for _, kind := range []string{"list", "command"} {
+						msg(c18Msg{Kind: kind, PTI: 2, Subs: []uSub{{208, 93, []uIns{{Upsc: 9, Parts: []uPart{{1, a}, {2, 5}}}}}}, Classmark: -1})
+						msg(c18Msg{Kind: kind, PTI: 2, Subs: []uSub{{208, 93, []uIns{{Upsc: 9, Parts: []uPart{{1, 10}, {2, a - 13}, {1, 3}, {2, 0}}}, {Upsc: 10, Parts: []uPart{{1, 1}}}}}}, Classmark: -1})
+					}
+				}
+			}
+		}
 		var counts []int
 		for k := 1; k <= 40; k++ {
 			counts = append(counts, k)
